@@ -51,7 +51,7 @@ func (endpoint *PairVerify) ServeHTTP(response http.ResponseWriter, request *htt
 	var out util.Container
 	var secSession crypto.Cryptographer
 
-	if in, err = util.NewTLV8ContainerFromReader(request.Body); err == nil {
+	if in, err = util.NewTLV8ContainerFromReader(http.MaxBytesReader(response, request.Body, maxRequestBodySize)); err == nil {
 		out, err = ctlr.Handle(in)
 	}
 
